@@ -176,6 +176,30 @@ let () =
         let ret = done_cl s.ls.(tS) in
         Printf.printf "OUT LOWP %s reached=%d returned=%d done_then=%d of=%d states_then=%s no_progress=%d\n" id
           (if reached then 1 else 0) (if ret then 1 else 0) (nexec s) k (states s) (if quiet && not ret then 1 else 0)
+      | "IN" :: "HPQ" :: id :: rest ->
+        (* round w11c, Model/SuspendResumeHP.v: nw workers, nhp high-priority queues, elasticity + stealing; one client suspends PU 0
+           and then submits n tasks (priority high iff high=1) with hint 1; everybody is scheduled round-robin for a fixed number of
+           rounds (a sleeping / polling worker only stutters); printed: tasks executed without a resume, worker states *)
+        let f = List.map kv rest in
+        let n = ios (List.assoc "nw" f) in
+        let nhp = ios (List.assoc "nhp" f) in
+        let high = (List.assoc "high" f = "1") in
+        let k = ios (List.assoc "n" f) in
+        let cfgv = { nw = nat_of_int n; elastic = true; stealing = true } in
+        let prog = expand cfgv (ASuspendPU (nat_of_int 0, false)) @ List.concat (List.init k (fun _ -> expand cfgv (ASubmit (Some (nat_of_int 1))))) in
+        let ls = Array.init (n + 1) (fun t -> if t < n then HWorker (HBase WTop) else HClient ({ todo = prog; ph = Ph0; err = false; vl = false }, high)) in
+        let g = ref sr_g0 in
+        for _ = 1 to 60 * (k + 4) do
+          for t = 0 to n do
+            let o = (false, nat_of_int (Random.State.int rst 64)) in
+            let (g', l') = hp_tstep cfgv (nat_of_int nhp) o (nat_of_int t) !g ls.(t) in
+            g := g'; ls.(t) <- l'
+          done
+        done;
+        let returned = (match ls.(n) with HClient (cl, _) -> cl.todo = [] | _ -> false) in
+        Printf.printf "OUT HPQ %s returned=%d done_before_resume=%d of=%d states=%s\n" id (if returned then 1 else 0)
+          (List.length !g.executed) k
+          (String.concat "," (List.init n (fun i -> string_of_int (int_of_n (rs_ord (!g.st (nat_of_int i))) - 1))))
       | _ -> ()
     done
   with End_of_file -> ()
